@@ -31,6 +31,7 @@ class TLCResult:
         if m:
             self.depth = int(m[-1])
         self.invariant_violated = re.findall(r"Invariant (\w+) is violated", out)
+        self.invariant_violated += re.findall(r"The invariant of (\w+) is equal to FALSE", out)
         self.property_violated = re.findall(
             r"(?:Action property|Temporal properties?) (\w+)? ?(?:is|were) violated", out
         )
@@ -110,7 +111,7 @@ def run_tlc(
     tla = module if os.path.isabs(module) else os.path.join(SPEC, module + ".tla")
     cfgp = cfg if os.path.isabs(cfg) else os.path.join(SPEC, cfg)
     meta = os.path.join(work, "meta_%d_%d" % (os.getpid(), int(time.time() * 1e6) % 10**9))
-    cmd = ["java", "-XX:+UseParallelGC", "-Xmx" + heap]
+    cmd = ["java", "-XX:+UseParallelGC", "-Xmx" + heap, "-DTLA-Library=" + SPEC]
     if dfs:
         cmd.append("-Dtlc2.tool.queue.IStateQueue=StateDeque")
     cmd += [
